@@ -99,6 +99,42 @@ func execOpAPI(c *Case) Observation {
 	return obs
 }
 
+// execOpAPITwice applies two fresh operator instances, one after the other, to the SAME input tensor objects and returns the
+// second observation: an operator that writes into (or reshapes) what it is given makes the second application deviate.
+func execOpAPITwice(c *Case) Observation {
+	ins, outs := ioNames(c)
+	node, err := mkNode(c.Op, c.Attrs, ins, outs)
+	if err != nil {
+		return Observation{Kind: "harness", Note: err.Error()}
+	}
+	inputs, err := mkInputs(c)
+	if err != nil {
+		return Observation{Kind: "harness", Note: err.Error()}
+	}
+	var obs Observation
+	for k := 0; k < 2; k++ {
+		obs = guard(func() Observation {
+			op, err := opset13.GetOperator(c.Op)
+			if err != nil {
+				return observeErr(err)
+			}
+			if err := op.Init(node); err != nil {
+				return observeErr(err)
+			}
+			validated, err := op.ValidateInputs(inputs)
+			if err != nil {
+				return observeErr(err)
+			}
+			res, err := op.Apply(validated)
+			if err != nil {
+				return observeErr(err)
+			}
+			return valueObs(res)
+		})
+	}
+	return obs
+}
+
 // singleNodeModel builds the model of a case; inputs with index >= firstInit (and non-nil) become initializers.
 func singleNodeModel(c *Case, firstInit int) ([]byte, error) {
 	ins, outs := ioNames(c)
@@ -219,16 +255,28 @@ func execOpCase(c *Case) []ModeResult {
 		case "api":
 			o := execOpAPI(c)
 			out = append(out, ModeResult{"api", Verdict(c, o), o.Short()})
+			if o.Kind == "value" {
+				o2 := execOpAPITwice(c)
+				out = append(out, ModeResult{"api:same-tensors-twice", Verdict(c, o2), o2.Short()})
+			}
 		case "run":
 			for _, o := range execOpRun(c, len(c.Inputs), 1) {
 				out = append(out, ModeResult{"run", Verdict(c, o), o.Short()})
 			}
 		case "init2":
-			if !protoOK || nonNil < 2 {
+			if !protoOK {
 				continue
 			}
-			for k, o := range execOpRun(c, 1, 2) {
-				out = append(out, ModeResult{fmt.Sprintf("init2#%d", k+1), Verdict(c, o), o.Short()})
+			if nonNil >= 2 {
+				for k, o := range execOpRun(c, 1, 2) {
+					out = append(out, ModeResult{fmt.Sprintf("init2#%d", k+1), Verdict(c, o), o.Short()})
+				}
+			}
+			// every input a weight (the first one too), the model run twice
+			if nonNil >= 1 && len(c.Same) == 0 {
+				for k, o := range execOpRun(c, 0, 2) {
+					out = append(out, ModeResult{fmt.Sprintf("init-all#%d", k+1), Verdict(c, o), o.Short()})
+				}
 			}
 		}
 	}
